@@ -96,10 +96,16 @@ pub fn res_err(m: &mut Map<String, Value>, e: &SignatureError) {
     m.insert("kind".into(), json!(kind_of(e)));
     m.insert("code".into(), json!(ServiceError::error_code(e)));
     m.insert("status".into(), json!(ServiceError::http_status(e).as_u16()));
-    m.insert("msg".into(), json!(e.to_string()));
+    m.insert("msg".into(), json!(ascii_only(&e.to_string())));
+}
+
+/// messages are kept ASCII so that no line-oriented tool ever splits a trace line inside a string
+pub fn ascii_only(s: &str) -> String {
+    s.chars().map(|c| if (c as u32) >= 0x20 && (c as u32) < 0x7f { c } else { '?' }).collect()
 }
 
 pub fn res_other(m: &mut Map<String, Value>, res: &str, msg: &str) {
+    let msg = &ascii_only(msg);
     m.insert("res".into(), json!(res));
     m.insert("out".into(), json!([]));
     m.insert("kind".into(), json!(""));
